@@ -108,7 +108,8 @@ def file_fault_scenarios(root, tier, rng):
                 evs = lab.call() + lab.call(must='disk')
                 traces.append({'id': tid, 'init': content, 'events': evs, 'kind': 'file-fault', 'hist': [name, version]})
             # leftover temp file and missing directory
-            for name in ('leftover-temp', 'missing-version-dir', 'missing-cache-dir'):
+            for name in ('leftover-temp', 'missing-version-dir', 'missing-cache-dir', 'version-dir-is-a-file',
+                         'cache-dir-is-a-file'):
                 if name == 'leftover-temp':
                     with open(pf + '.tmp', 'wb') as f:
                         f.write(data[:10])
@@ -116,6 +117,21 @@ def file_fault_scenarios(root, tier, rng):
                         f.write(b'x')
                 elif name == 'missing-version-dir':
                     shutil.rmtree(os.path.dirname(pf))
+                elif name in ('version-dir-is-a-file', 'cache-dir-is-a-file'):
+                    # nothing can be created below a regular file: every file operation of the save fails, whichever
+                    # way the save creates its file; the parse must still succeed, and once the obstacle is gone the
+                    # next save must work again
+                    obstacle = os.path.dirname(pf) if name == 'version-dir-is-a-file' else str(lab.cdir)
+                    shutil.rmtree(obstacle, ignore_errors=True)
+                    open(obstacle, 'wb').close()
+                    tid += 1
+                    evs = lab.call()
+                    os.remove(obstacle)
+                    evs += lab.call() + lab.call(must='disk')
+                    traces.append({'id': tid, 'init': content, 'events': evs, 'kind': 'file-fault', 'hist': [name, version]})
+                    lab.call()
+                    pf = lab.pickle_file()
+                    continue
                 else:
                     shutil.rmtree(str(lab.cdir))
                 tid += 1
@@ -322,5 +338,48 @@ def realfs_scenarios(root):
                                'hist': ['realfs', kind, mode]})
             finally:
                 os.chdir(cwd)
+                lab.close()
+    return traces
+
+
+def sibling_path_scenarios(root):
+    """C16 NoForeign on the real file layer: two DIFFERENT files whose names are equal up to Unicode normalisation
+    or letter case (legal, distinct names on the file systems parso runs on) must never be served each other's tree -
+    in memory, from the pickle after a restart, in both orders."""
+    import unicodedata
+    traces = []
+    tid = 0
+    pairs = [('caf\u00e9.py', 'cafe\u0301.py'), ('Mod.py', 'mod.py'), ('\u212b.py', '\u00c5.py'), ('a.py', 'a.py ')]
+    for n1, n2 in pairs:
+        for order in ((0, 1), (1, 0)):
+            lab = Lab(root)
+            try:
+                files = {'p1': os.path.join(root, n1), 'p2': os.path.join(root, n2)}
+                content = {'p1': 'b', 'p2': 'c'}
+                evs = []
+                now = time.time() - 3000
+                for k, (pk, path) in enumerate(sorted(files.items())):
+                    with open(path, 'w', newline='') as f:
+                        f.write(CONTENT_TEXT[content[pk]])
+                    # the file parsed first is the NEWER one: the other's mtime does not invalidate a shared entry
+                    newer = (order[0] == k)
+                    t = now + (600 if newer else 0)
+                    os.utime(path, (t, t))
+                    evs.append(ev('Write', p=pk, c=content[pk]))
+                if len({os.path.realpath(p) for p in files.values()}) < 2 or len(os.listdir(root)) < 3:
+                    continue            # the file system folded the two names into one file: no claim
+                seq = [sorted(files)[order[0]], sorted(files)[order[1]]]
+                for fresh in (False, True, True):
+                    for pk in seq:
+                        lab.src = files[pk]
+                        r = lab.call(keep_memory=not fresh)
+                        for e in r:
+                            e['p'] = pk
+                        evs += r
+                tid += 1
+                traces.append({'id': 41000 + tid, 'init': 'a', 'events': evs, 'kind': 'realfs',
+                               'hist': ['sibling-paths', unicodedata.normalize('NFC', n1).encode('unicode_escape').decode(),
+                                        n2.encode('unicode_escape').decode(), list(order)]})
+            finally:
                 lab.close()
     return traces
